@@ -541,3 +541,71 @@ def gen_loops(seed: int) -> str:
     lines.append("}")
     lines.append(f"Signal after = {x} + 1;")
     return "\n".join(lines) + "\n"
+
+
+# ------------------------------------------------------------------ constant expressions (C11)
+def _py_eval(op, a, b):
+    """the folders' arithmetic (unbounded Python ints) -- only used to tag generated cases"""
+    if op == "+": return a + b
+    if op == "-": return a - b
+    if op == "*": return a * b
+    if op == "/": return 0 if b == 0 else a // b
+    if op == "%": return 0 if b == 0 else a % b
+    if op == "**": return 0 if b < 0 else a ** b
+    if op == "<<": return 0 if (b < 0 or b >= 32) else (a << b) & 0xFFFFFFFF
+    if op == ">>": return 0 if (b < 0 or b >= 32) else a >> b
+    if op == "AND": return a & b
+    if op == "OR": return a | b
+    if op == "XOR": return a ^ b
+    raise ValueError(op)
+
+
+def gen_constexpr(seed: int):
+    """A program that uses one constant expression in one of the positions where folding happens.
+    Returns (source, meta); meta records whether the expression divides/takes a remainder with a
+    negative operand (F05 region) or leaves the int32 range on the way (F06 region)."""
+    rng = random.Random(seed)
+    meta = {"neg_divmod": False, "overflow": False, "ops": []}
+
+    def cexpr(depth):
+        if depth <= 0 or rng.random() < 0.3:
+            v = const(rng, small=rng.random() < 0.5)
+            return lit(v), v
+        op = rng.choice(ARITH)
+        ls, lv = cexpr(depth - 1)
+        if op in ("<<", ">>"):
+            rv = rng.randint(0, 31)
+            rs = str(rv)
+        elif op == "**":
+            rv = rng.randint(0, 4)
+            rs = str(rv)
+        else:
+            rs, rv = cexpr(depth - 1)
+        meta["ops"].append(op)
+        if op in ("/", "%") and (lv < 0 or rv < 0) and rv != 0:
+            meta["neg_divmod"] = True
+        val = _py_eval(op, lv, rv)
+        if not (-2 ** 31 <= val < 2 ** 31):
+            meta["overflow"] = True
+        return f"({ls} {op} {rs})", val
+
+    e, val = cexpr(rng.randint(1, 3))
+    meta["python_value"] = val
+    pos = rng.choice(["int_decl", "literal_value", "operand", "condition", "func_arg", "loop_body", "signal_decl"])
+    meta["position"] = pos
+    lines = ['Signal x = ("signal-X", 7);']
+    if pos == "int_decl":
+        lines += [f"int n = {e};", "Signal r = x + n;"]
+    elif pos == "literal_value":
+        lines += [f'Signal k = ("signal-K", {e});', "Signal r = x + k;"]
+    elif pos == "operand":
+        lines += [f"Signal r = x * {e};"]
+    elif pos == "condition":
+        lines += [f"Signal r = (x > {e}) : x;"]
+    elif pos == "func_arg":
+        lines += ["func f(int a, Signal s) {", "    return s + a;", "}", f"Signal r = f({e}, x);"]
+    elif pos == "loop_body":
+        lines += ["for i in 0..2 {", f'    Entity l = place("small-lamp", i, 0);', f"    l.enable = x > (i + {e});", "}"]
+    else:
+        lines += [f"Signal c = {e};", "Signal r = x + c;"]
+    return "\n".join(lines) + "\n", meta
